@@ -8,6 +8,10 @@ mod conv;
 mod infra;
 mod refmodel;
 mod alpha;
+mod mc;
+mod points;
+mod toy;
+mod toymodel;
 
 use infra::{Ctx, Tier};
 
